@@ -11,6 +11,7 @@ use std::collections::HashMap;
 use std::sync::Arc;
 
 mod scenario;
+mod syscall_mode;
 use scenario::*;
 use scenario::Ref;
 
@@ -25,6 +26,7 @@ struct Shared
     sys_names: Vec<Entity>,
     tokens: Vec<RevokeToken>,
     sigs: Vec<Vec<AutoDespawnSignal>>,
+    ready: std::collections::HashSet<Entity>,
     defs: Arc<Vec<Def>>,
     n_wr: usize,
     n_ewr: usize,
@@ -257,6 +259,13 @@ fn new_system_name(e: Entity) -> usize
 {
     SH.with(|s| { let mut s = s.borrow_mut(); s.sys_names.push(e); s.sys_names.len() - 1 })
 }
+/// Queued right after the command that inserts the system's callback: from then on the system may be despawned.
+fn mark_ready(c: &mut Commands, e: Entity) { c.queue(move |_: &mut World| { SH.with(|s| { s.borrow_mut().ready.insert(e); }); }); }
+/// A named system whose callback insertion is still queued (despawning it now would make `Commands::spawn` panic).
+fn pending_system(e: Entity) -> bool
+{
+    SH.with(|s| { let s = s.borrow(); s.sys_names.contains(&e) && !s.ready.contains(&e) })
+}
 fn next_system_name() -> usize { SH.with(|s| s.borrow().sys_names.len()) }
 
 /// Spawns a scripted system command for definition `def` (ordinary or exclusive).
@@ -266,6 +275,7 @@ fn spawn_scripted(c: &mut Commands, def: usize) -> Option<SystemCommand>
     let name = next_system_name();
     let sys = if excl { c.spawn_system_command(make_exclusive(def, name)) } else { c.spawn_system_command(make_ordinary(def, name, None)) };
     new_system_name(*sys);
+    mark_ready(c, *sys);
     Some(sys)
 }
 
@@ -292,17 +302,20 @@ fn interpret(c: &mut Commands, ctx: &mut Ctx, act: &SAct)
                     // `on` returns nothing; spell it out as it is implemented so the reactor can be named.
                     let sys = if excl { c.spawn_system_command(make_exclusive(*d, name)) } else { c.spawn_system_command(make_ordinary(*d, name, None)) };
                     new_system_name(*sys);
+                    mark_ready(c, *sys);
                     c.react().with(b, sys, ReactorMode::Cleanup);
                 }
                 SMode::P =>
                 {
                     let sys = if excl { c.react().on_persistent(b, make_exclusive(*d, name)) } else { c.react().on_persistent(b, make_ordinary(*d, name, None)) };
                     new_system_name(*sys);
+                    mark_ready(c, *sys);
                 }
                 SMode::R =>
                 {
                     let tok = if excl { c.react().on_revokable(b, make_exclusive(*d, name)) } else { c.react().on_revokable(b, make_ordinary(*d, name, None)) };
                     new_system_name(*SystemCommand::from(tok.clone()));
+                    mark_ready(c, *SystemCommand::from(tok.clone()));
                     SH.with(|s| s.borrow_mut().tokens.push(tok));
                 }
             }
@@ -319,6 +332,7 @@ fn interpret(c: &mut Commands, ctx: &mut Ctx, act: &SAct)
             let name = next_system_name();
             let tok = c.react().once(b, make_ordinary(*d, name, None));
             new_system_name(*SystemCommand::from(tok.clone()));
+            mark_ready(c, *SystemCommand::from(tok.clone()));
             SH.with(|s| s.borrow_mut().tokens.push(tok));
         }
         SAct::Revoke(k) =>
@@ -398,12 +412,14 @@ fn interpret(c: &mut Commands, ctx: &mut Ctx, act: &SAct)
         SAct::Despawn(r) =>
         {
             let Some(e) = resolve(*r) else { return };
+            if pending_system(e) { return }
             let Some(mut ec) = c.get_entity(e) else { return };
             ec.despawn();
         }
         SAct::DespawnRec(r) =>
         {
             let Some(e) = resolve(*r) else { return };
+            if pending_system(e) { return }
             let Some(ec) = c.get_entity(e) else { return };
             ec.despawn_recursive();
         }
@@ -762,6 +778,24 @@ fn run_top(world: &mut World, t: usize, op: &STop)
                 None => false } });
             if !ok { top_acts(world, t, vec![]) }
         }
+        STop::SigThreads(a, n) =>
+        {
+            // clone n times, drop the clones on n worker threads while this thread collects concurrently
+            let base = SH.with(|s| s.borrow().sigs.get(*a).and_then(|v| v.last().cloned()));
+            match base
+            {
+                Some(sig) =>
+                {
+                    let clones: Vec<AutoDespawnSignal> = (0..*n).map(|_| sig.clone()).collect();
+                    drop(sig);
+                    let handles: Vec<_> = clones.into_iter().map(|c| std::thread::spawn(move || { std::thread::yield_now(); drop(c); })).collect();
+                    for _ in 0..4 { garbage_collect_entities(world); std::thread::yield_now(); }
+                    for h in handles { let _ = h.join(); }
+                    garbage_collect_entities(world);
+                }
+                None => top_acts(world, t, vec![]),
+            }
+        }
         STop::SigDrop(a) =>
         {
             let popped = SH.with(|s| { let mut s = s.borrow_mut(); match s.sigs.get_mut(*a) { Some(v) => Some(v.pop()), None => None } });
@@ -775,6 +809,7 @@ fn run_top(world: &mut World, t: usize, op: &STop)
 fn run_scenario(path: &str)
 {
     let text = std::fs::read_to_string(path).expect("read scenario");
+    if text.lines().any(|l| l.trim() == "mode syscall") { syscall_mode::run(path, &text); return }
     let Some(sc) = parse_scenario(&text) else { println!("parse-error"); return };
     println!("scenario {path}");
     SH.with(|s| *s.borrow_mut() = Shared{ defs: Arc::new(sc.defs.clone()), n_wr: sc.wrs.len(), n_ewr: sc.ewrs.len(), ..Default::default() });
@@ -792,6 +827,7 @@ fn run_scenario(path: &str)
             if k == 0 { app.add_world_reactor(Wr::<0>{ def: *d, name }); } else { app.add_world_reactor(Wr::<1>{ def: *d, name }); }
             let e = app.world().iter_entities().map(|e| e.id()).find(|e| !before.contains(e)).expect("wr entity");
             new_system_name(e);
+            SH.with(|s| { s.borrow_mut().ready.insert(e); });
         }
         for (k, d) in sc.ewrs.iter().enumerate()
         {
@@ -800,6 +836,7 @@ fn run_scenario(path: &str)
             if k == 0 { app.add_entity_reactor(Ewr::<0>{ def: *d, name }); } else { app.add_entity_reactor(Ewr::<1>{ def: *d, name }); }
             let e = app.world().iter_entities().map(|e| e.id()).find(|e| !before.contains(e)).expect("ewr entity");
             new_system_name(e);
+            SH.with(|s| { s.borrow_mut().ready.insert(e); });
         }
 
         #[cfg(feature = "hooks")]
